@@ -336,6 +336,10 @@ def run_phase(ctx, ph):
     # ---- C: validate
     v = ph["validate"]
     bads = validate(ctx, name, v, trace_path)
+    if v.get("only_rules"):
+        # this property judges only some of the trace spec's rules here (the others belong to another property's check)
+        keep = set(v["only_rules"])
+        bads = [dict(b, rules=sorted(set(b["rules"]) & keep)) for b in bads if set(b["rules"]) & keep]
     phase_ev.update(trace_lines=nlines, deviations=len(bads))
     # re-execute deviating cases once in isolation (deterministic drivers only)
     if bads and cases_path and v.get("recheck", True):
@@ -347,7 +351,7 @@ def run_phase(ctx, ph):
                 f.write(json.dumps(c) + "\n")
         tr2 = os.path.join(work, f"trace_{name}_recheck.ndjson")
         drive(ctx.binp, work, d["driver"], sub_path, tr2, seed, tier, extra=extra)
-        bads2 = validate(ctx, name + "_recheck", v, tr2, count=False)
+        bads2 = only_rules(v, validate(ctx, name + "_recheck", v, tr2, count=False))
         # the code under test may itself be non-deterministic (map iteration order, scheduling), so individual cases may
         # differ between executions; but every KIND of deviation must show up again, otherwise it was a fluke of the harness
         k1 = {dev_key(b) for b in bads}
@@ -358,7 +362,7 @@ def run_phase(ctx, ph):
             # executed again, in the same order; a kind that shows up again there is reproducible real-code behaviour.
             tr3 = os.path.join(work, f"trace_{name}_rerun.ndjson")
             drive(ctx.binp, work, d["driver"], cases_path, tr3, seed, tier, extra=extra, timeout=d.get("timeout", 3000))
-            bads3 = validate(ctx, name + "_rerun", v, tr3, count=False)
+            bads3 = only_rules(v, validate(ctx, name + "_rerun", v, tr3, count=False))
             k3 = {dev_key(b) for b in bads3} & (k1 - k2)
             if k3:
                 log(f"{name}: deviation kind(s) {sorted(k3)} reproduce only when the whole phase is executed again (they depend on earlier calls in the same process)")
@@ -388,6 +392,13 @@ def run_phase(ctx, ph):
                 s = {k: r[k] for k in r if k in ("id", "variant", "in", "obs", "ops", "events")}
                 ctx.ev["samples"].append({"phase": name, **json.loads(json.dumps(s)[:4000] if len(json.dumps(s)) < 4000 else json.dumps({"id": r.get("id"), "truncated": True}))})
     ctx.ev["phases"].append(phase_ev)
+
+
+def only_rules(v, bads):
+    if not v.get("only_rules"):
+        return bads
+    keep = set(v["only_rules"])
+    return [dict(b, rules=sorted(set(b["rules"]) & keep)) for b in bads if set(b["rules"]) & keep]
 
 
 def validate(ctx, name, v, trace_path, count=True):
